@@ -293,7 +293,7 @@ theorem advance_first (cfg : Config) (hirr : cfg.matches .irreversible = true) (
       | none => rw [hfx] at this; cases this
       | some e => exact ⟨e, rfl⟩
     have hlibfin : db'.libRef = a.st.db.libRef := by rw [← hdb']; rfl
-    refine ⟨hI.noInit, by simp only [withDb, hlibfin]; exact hI.libNe, ?_, ?_, ?_, ?_, ?_, ?_, ?_, ?_, ?_⟩
+    refine ⟨by simp only [withDb, hlibfin]; exact hI.libNe, ?_, ?_, ?_, ?_, ?_, ?_, ?_, ?_, ?_⟩
     · simp only [withDb]; rw [← hdb']; exact wf_purge _ _ _ hI.wf
     · simp only [withDb]; rw [← hdb']; exact heights_movePurge _ hI.wf hI.heights _ cfg.kept L hLf hnumL
     · simp only [withDb, hlibfin]; rw [← hdb']; exact isPath_movePurge _ _ _ _ _ hI.path hhigh
@@ -440,7 +440,7 @@ theorem discovery_switch (cfg : Config) (hnew : cfg.matches .new = true) (hundo 
     have hlastSent : a.st.lastSent = some eb.blk := by
       rw [hout.last, hlceb, getLast_filter_of_last _ lc0 eb hebunsent]; rfl
     have hI2 : Inv a.st ((c0 :: cs0).map (·.blk.id)) := by
-      refine ⟨hout.incl.trans (by rw [← hs3]; exact hP.noInit), by rw [hsame.1, hs3lib]; exact hRne,
+      refine ⟨by rw [hsame.1, hs3lib]; exact hRne,
         Forkable.SameBlks.wf hsame (by rw [hs3db]; exact hw2), Forkable.SameBlks.heights hsame (by rw [hs3db]; exact hh2),
         ?_, ?_, ?_, ?_, ?_, ?_, ?_⟩
       · rw [hsame.1, hsame.isPath, hs3lib, hs3db]; exact hp
@@ -570,7 +570,7 @@ theorem discovery_nochain (U : Id → Option Blk) (hU : UOK U) (s : FState) (b :
   have herid : er.blk.id = R.id := find_id _ _ er hfer
   right; right
   refine ⟨er.blk, [], by simp only; rw [hlib2, herid], by simp, trivial, ?_, by rw [herid]; exact hJ2⟩
-  refine ⟨hP.noInit, by simp only; rw [hlib2]; exact hRne, hw2, hh2, trivial, by simp, by simp, ?_, ?_, ?_, ?_⟩
+  refine ⟨by simp only; rw [hlib2]; exact hRne, hw2, hh2, trivial, by simp, by simp, ?_, ?_, ?_, ?_⟩
   · intro l hl; simp only at hl; rw [hP.noLast] at hl; cases hl
   · intro _; exact ⟨rfl, hns2⟩
   · intro c' cs' hcc _
@@ -660,7 +660,7 @@ theorem discovery_initial (cfg : Config) (hnew : cfg.matches .new = true) (hirr 
     simp [sbOf]
   · apply inv_seen
     simp only [initSt, Bool.false_eq_true, if_false]
-    refine ⟨by rw [← hs']; exact hP.noInit, by rw [hs'db, hlib2]; exact hb.1, by rw [hs'db]; exact hw2, by rw [hs'db]; exact hh2,
+    refine ⟨by rw [hs'db, hlib2]; exact hb.1, by rw [hs'db]; exact hw2, by rw [hs'db]; exact hh2,
       trivial, by simp, by simp, ?_, ?_, ?_, ?_⟩
     · intro l hl'
       simp only [Option.some.injEq] at hl'
